@@ -9,7 +9,7 @@ from ..interp import Interp, Obj, Sym, Term, Lin, View, Cell, is_opaque, vkey, _
 from ..chibi import Catalogue, type_cell, cat_of, INT_CATS
 from ..build import AnalysisBroken
 from ..lib_c05 import (TInterp, ctype_bits, settle, lin_eq, lin_diff, lsum, lscale, field, is_null, strip_cast, show,
-                       children_hook, child_index, show_key)
+                       children_hook, child_index, show_key, eq_on_path)
 
 U = 'parse.c'
 SCALARS = INT_CATS + ('float', 'double', 'ldouble', 'ptr')
@@ -298,11 +298,11 @@ def r051_struct(be, rep):
         rep.undecided('R05.1', '%s:%s:struct' % (U, fn), 'struct arm not recognised: fewer than 2 paths that walk a member list to its end')
 
 
-def r051_struct_expr(be, rep):
+def r051_struct_expr(be, rep, kind='TY_STRUCT', word='struct'):
     """a struct initialised by an expression of struct type (init->expr set): must be honoured or diagnosed"""
     fn = be.fname
     it = be.interp()
-    res = it.explore(fn, be.args(be.kind_ty('TY_STRUCT'), init_expr=lambda ctx: Obj('Node', lazy=True, label='struct-valued-expr')))
+    res = it.explore(fn, be.args(be.kind_ty(kind), init_expr=lambda ctx: Obj('Node', lazy=True, label=word + '-valued-expr')))
     n = 0
     for ctx, out in res:
         n += 1
@@ -311,8 +311,8 @@ def r051_struct_expr(be, rep):
             if out[1] not in ('error_tok', 'error_at'):
                 continue     # size dispatch of read_buf/write_buf on impossible bit-field sizes: not judged here
             ok = True
-            rep.ob('R05.1', '%s:%s:struct-valued-initializer/diagnosed' % (U, fn), ok,
-                   '%s stops with %s() on a struct initialised by an expression of struct type' % (fn, out[1]), where=_w(be.u, fn), facts={'path': ctx.trail})
+            rep.ob('R05.1', '%s:%s:%s-valued-initializer/diagnosed' % (U, fn, word), ok,
+                   '%s stops with %s() on a %s initialised by an expression of %s type' % (fn, out[1], word, word), where=_w(be.u, fn), facts={'path': ctx.trail})
             continue
         used = False
         for ev in ctx.events:
@@ -323,12 +323,12 @@ def r051_struct_expr(be, rep):
             used = used or field(r, 'rhs') is e or field(r, 'lhs') is e
             if used:
                 used = field(r, 'kind') == be.E['ND_ASSIGN'] and field(r, 'rhs') is e
-        rep.ob('R05.1', '%s:%s:struct-valued-initializer/%s' % (U, fn, 'used' if used else 'ignored'), used,
-               '%s ignores init->expr of a struct: `static struct S s = (struct S){1, 2};` (or any struct-valued initializer expression) is accepted '
-               'without a diagnostic and the object silently keeps the zero fill, while the automatic back end assigns the expression' % fn,
+        rep.ob('R05.1', '%s:%s:%s-valued-initializer/%s' % (U, fn, word, 'used' if used else 'ignored'), used,
+               '%s ignores init->expr of a %s: `static %s S s = (%s S){1, 2};` (or any %s-valued initializer expression) is accepted '
+               'without a diagnostic and the object silently keeps the zero fill / is initialised member-wise from an empty list, while the whole-object expression should be assigned or rejected' % (fn, word, word, word, word),
                where=_w(be.u, fn), facts={'path': ctx.trail[-6:]})
     if n == 0:
-        rep.undecided('R05.1', '%s:%s:struct-valued-initializer' % (U, fn), 'no path')
+        rep.undecided('R05.1', '%s:%s:%s-valued-initializer' % (U, fn, word), 'no path')
 
 
 def r051_union(be, rep):
@@ -400,8 +400,12 @@ def cursor_threaded(be, it, ctx, out, rep, arm):
 
 
 # ------------------------------------------------------------------------------------------------
+ALL_ONES = (-1, (1 << 64) - 1)
+
+
 def norm_merge(v):
-    """recognise old | ((new & ((1 << w) - 1)) << o) up to commutativity; returns dict or None"""
+    """recognise old | ((new & MASK) << o) up to commutativity, MASK = (1 << w) - 1 (form 'shift') or all ones / absent (form 'all');
+    returns dict or None"""
     if not (isinstance(v, Term) and v.op == '|' and len(v.args) == 2):
         return None
     for old, sh in (v.args, v.args[::-1]):
@@ -409,12 +413,24 @@ def norm_merge(v):
             val, o = sh.args
             if isinstance(val, Term) and val.op == '&':
                 for new, mask in (val.args, val.args[::-1]):
+                    if isinstance(mask, int) and not isinstance(mask, bool) and mask in ALL_ONES:
+                        return {'old': old, 'new': new, 'w': None, 'o': o, 'form': 'all'}
                     lm = Lin.of(mask)
                     if isinstance(lm, Lin) and lm.c == -1 and len(lm.terms) == 1:
                         (c, leaf), = lm.terms.values()
                         if c == 1 and isinstance(leaf, Term) and leaf.op == '<<' and leaf.args[0] == 1:
-                            return {'old': old, 'new': new, 'w': leaf.args[1], 'o': o}
+                            return {'old': old, 'new': new, 'w': leaf.args[1], 'o': o, 'form': 'shift'}
+            elif isinstance(val, (Sym, Term)) and not (isinstance(old, Term) and old.op == '<<'):
+                return {'old': old, 'new': val, 'w': None, 'o': o, 'form': 'all'}
     return None
+
+
+def _width_is(ctx, m, n):
+    w = m.fields.get('bit_width')
+    if w is None:
+        return False
+    b = ctx.bounds.get(vkey(w))
+    return bool(b) and b[0] == b[1] == n
 
 
 def r054_path(be, it, ctx, mems, rep):
@@ -457,12 +473,25 @@ def r054_path(be, it, ctx, mems, rep):
                 ok = False; msg = 'the bit-field merge does not start from the bytes already in the storage unit (neighbouring bit-fields are lost)'; construct = 'merge-old-value'
             elif not ev:
                 ok = False; msg = 'the merged value is not the evaluated initializer expression'; construct = 'merge-new-value'
-            elif f['w'] is not m.fields.get('bit_width') or f['o'] is not m.fields.get('bit_offset'):
+            elif (f['form'] == 'shift' and f['w'] is not m.fields.get('bit_width')) or f['o'] is not m.fields.get('bit_offset'):
                 ok = False; msg = 'mask width / shift are %s / %s, expected mem->bit_width / mem->bit_offset' % (show(f['w']), show(f['o'])); construct = 'merge-width-offset'
+            elif f['form'] == 'all' and not _width_is(ctx, m, 64):
+                ok = False; construct = 'merge-unmasked'
+                msg = 'the initializer value of a bit-field is merged without masking it to the field width although the width is not known to be 64: excess bits spill into the neighbouring fields'
             elif not (szb and szb[0] == szb[1] and width == 8 * szb[0] and ctype_bits(old.args[0].args[1]) == width):
                 ok = False; construct = 'merge-unit-width'
                 msg = 'the storage unit of a bit-field of a %s-byte type is read with %s bits and written with %s bits' % (szb[0] if szb else '?', ctype_bits(old.args[0].args[1]), width)
         rep.ob('R05.4', '%s:write_gvar_data:%s' % (U, construct), ok, msg, where='%s:%d' % (U, s[3]), facts={'path': ctx.trail})
+        if ok and f['form'] == 'shift':
+            # (1 << w) - 1 computed in a B-bit type is undefined for w == B; a bit-field may be as wide as its (up to 64-bit) type
+            sh = [e for e in ctx.events if e[0] == 'binop' and e[1] == '<<' and isinstance(e[4], Term) and e[4].args[0] == 1 and e[4].args[1] is f['w']]
+            B = ctype_bits(sh[0][2]) if sh else None
+            if B == 64:
+                wb = ctx.bounds.get(vkey(f['w']))
+                excluded = (wb is not None and wb[1] < 64) or 64 in ctx.neq.get(vkey(f['w']), ())
+                rep.ob('R05.4', '%s:write_gvar_data:merge-mask-full-width' % U, excluded,
+                       'the mask (1L << bit_width) - 1 is computed for every width including 64: for a bit-field as wide as its 64-bit type (`long a:64`) the shift count equals the '
+                       'type width (undefined; 1L << 64 == 1 on x86), the mask becomes 0 and the member is stored as 0', where='%s:%d' % (U, sh[0][3]))
         # 64-bit arithmetic: every symbolic shift/mask feeding the merge is computed in a 64-bit type
         for e in ctx.events:
             if e[0] == 'binop' and e[1] in ('<<', '&', '|'):
@@ -603,12 +632,16 @@ def run(P, rep, tier):
     rep.rule('R05.2', 'the static back end stores every scalar type class with its own width and representation (or nothing when there is no initializer)', floor=14)
     rep.rule('R05.4', 'static bit-field merge is old | ((new & ((1 << width) - 1)) << offset), computed in 64 bits, read and written with the width of the storage unit', floor=4)
     rep.rule('R05.7', 'address constants: the relocation cursor is threaded through every recursive call and returned; a label+addend becomes a relocation at the element offset; eval2/eval_rval add member offsets', floor=8)
+    copies = r051_copy(P, u, E, rep)
     bs = BackEnd(P, u, E, 'write_gvar_data')
     bl = BackEnd(P, u, E, 'create_lvar_init')
     for be in (bs, bl):
         r051_array(be, rep)
         r051_struct(be, rep)
         r051_struct_expr(be, rep)
+        if copies.get('union'):
+            # only when the parser produces whole-union initializer expressions at all
+            r051_struct_expr(be, rep, 'TY_UNION', 'union')
         r051_union(be, rep)
     r052_scalars(P, u, E, cat, rep)
     r057_addr(P, u, E, cat, rep)
@@ -781,6 +814,7 @@ def _cursor_models(equal_is=None):
         if len(a) < 5 or not isinstance(a[3], _Ref) or not isinstance(a[4], _Ref):
             raise AnalysisBroken('array_designator is no longer called with (&rest, tok, ty, &begin, &end)')
         a[3].place.set(it, b); a[4].place.set(it, e)
+        ctx.facts[vkey(Term('<=', b, e))] = True      # post-condition of array_designator: it rejects an empty range
         _set_rest(it, ctx, a[0], 'tok-after-designator')
         ctx.emit('adesig', b, e, n.line)
         return None
@@ -842,6 +876,38 @@ def _child_key(ctx, child, it):
     return child_index(field(ctx.root_init, 'children'), settle(it, child))
 
 
+def _key_eq(ctx, k, want):
+    """index key k (vkey of a linear value) equals `want` on this path"""
+    from ..lib_c05 import _lin_of_key
+    L = _lin_of_key(k)
+    if L is None:
+        return False
+    v = L[0]
+    for lk, c in L[1].items():
+        leaf = Sym(lk[1]) if lk[0] == 'sym' else None
+        if leaf is None:
+            return False
+        v = lsum(v, lscale(leaf, c))
+    return eq_on_path(ctx, v, want)
+
+
+def _range_ok(ctx, keys, b, e):
+    """the designated element keys are exactly begin..end (any order) on this path"""
+    n = len(keys)
+    if n == 0 or not eq_on_path(ctx, lsum(b, n - 1), e):
+        return False
+    left = list(keys)
+    for i in range(n):
+        hit = None
+        for k in left:
+            if k is not None and (k == vkey(lsum(b, i)) or _key_eq(ctx, k, lsum(b, i))):
+                hit = k; break
+        if hit is None:
+            return False
+        left.remove(hit)
+    return True
+
+
 def r058(P, u, E, rep):
     _need(u, 'array_initializer1', 'count_array_init_elements', 'designation', 'struct_initializer1', 'array_designator', 'struct_designator')
     rep.rule('R05.8', 'after a designator the positional cursor resumes behind the designated sub-object (index `end`+1 after [begin ... end], the next member after .m) in every function that walks the cursor: array_initializer1, count_array_init_elements, designation, struct_initializer1', floor=6)
@@ -859,10 +925,14 @@ def r058(P, u, E, rep):
         expect = 0
         for e in ctx.events:
             if e[0] == 'adesig':
-                last = e; expect = lsum(e[2], 1); ctx.n_des = 0
+                last = e; expect = lsum(e[2], 1)
+                ctx.des_keys = []
+                if not hasattr(ctx, 'des_groups'):
+                    ctx.des_groups = []
+                ctx.des_groups.append((e, ctx.des_keys))
             elif e[0] == 'sub' and e[1] == 'initializer2':
                 k = _child_key(ctx, e[2][2], it)
-                good = k is not None and k == vkey(expect)
+                good = k is not None and (k == vkey(expect) or _key_eq(ctx, k, expect))
                 if last is not None:
                     n_after += 1
                     rep.ob('R05.8', '%s:%s:%s' % (U, fn, RES), good, what % (fn, 'element ' + show_key(k)), where='%s:%d' % (U, e[3]), facts={'path': ctx.trail, 'begin..end': (show(last[1]), show(last[2]))})
@@ -873,12 +943,11 @@ def r058(P, u, E, rep):
                 last = None if last is None else last
                 expect = lsum(expect, 1)
             elif e[0] == 'sub' and e[1] == 'designation' and last is not None:
-                # the designated elements themselves: begin, begin+1, ...
-                k = _child_key(ctx, e[2][2], it)
-                nd = getattr(ctx, 'n_des', 0)
-                rep.ob('R05.8', '%s:%s:range-designates-begin..end' % (U, fn), k is not None and k == vkey(lsum(last[1], nd)),
-                       'element #%d designated by [begin ... end] is element %s, expected begin+%d' % (nd, show_key(k), nd), where='%s:%d' % (U, e[3]), facts={'path': ctx.trail})
-                ctx.n_des = nd + 1
+                ctx.des_keys.append(_child_key(ctx, e[2][2], it))
+        for d, ks in getattr(ctx, 'des_groups', []):
+            rep.ob('R05.8', '%s:%s:range-designates-begin..end' % (U, fn), _range_ok(ctx, ks, d[1], d[2]),
+                   'a range designator [begin ... end] initialises elements {%s}, expected exactly begin, begin+1, ... end' % ', '.join(show_key(k) for k in ks),
+                   where='%s:%d' % (U, d[3]), facts={'path': ctx.trail})
     if n_after == 0 or n_first == 0:
         rep.undecided('R05.8', '%s:%s' % (U, fn), 'cursor walk not recognised (no positional element after a designator / at the start on any path)')
     # the designated elements themselves: begin..end
@@ -946,10 +1015,8 @@ def r058(P, u, E, rep):
         # the designated elements are begin..end
         subs = [e for e in ctx.events if e[0] == 'sub' and e[1] == 'designation']
         ks = [_child_key(ctx, e[2][2], it) for e in subs]
-        b = des[0][1]
-        want = [vkey(lsum(b, i)) for i in range(len(ks))]
-        rep.ob('R05.8', '%s:%s:range-designates-begin..end' % (U, fn), ks == want and len(ks) >= 1,
-               'a range designator initialises elements %s, expected begin, begin+1, ... end' % (ks,), where=_w(u, fn), facts={'path': ctx.trail})
+        rep.ob('R05.8', '%s:%s:range-designates-begin..end' % (U, fn), _range_ok(ctx, ks, des[0][1], des[0][2]),
+               'a range designator [begin ... end] initialises elements {%s}, expected exactly begin, begin+1, ... end' % ', '.join(show_key(k) for k in ks), where=_w(u, fn), facts={'path': ctx.trail})
     if n_a == 0:
         rep.undecided('R05.8', '%s:%s' % (U, fn), 'array-designator branch of designation not recognised')
     # --- designation, "." struct branch; struct_initializer1 -------------------------------------------
@@ -1020,6 +1087,18 @@ def _directive(fmt):
     return s.split()[0] if s else ''
 
 
+def _upd_after_label(events):
+    """updates of the position counter: counter updates that follow the emission of the object's label"""
+    out = []
+    started = False
+    for e in events:
+        if e[0] == 'emit' and isinstance(e[1], str) and e[1].strip() == '%s:':
+            started = True
+        elif e[0] == 'upd' and started:
+            out.append(e)
+    return out
+
+
 def r055(P, rep):
     from ..chibi import CG
     cg = CG(P)
@@ -1060,7 +1139,7 @@ def r055(P, rep):
                         started = True
                     continue
                 items.append(e)
-        upd = [e for e in ctx.events if e[0] == 'upd' and e[1] == 'pos']
+        upd = _upd_after_label(ctx.events)
         pos = 0
         relv = ('field', v, 'rel')
         ok, msg, construct = True, '', 'walk'
@@ -1523,3 +1602,66 @@ def r056(P, u, E, cat, rep):
     f2 = u.fn('initializer2')
     if f2 is None or not f2.calls('string_initializer'):
         rep.undecided('R05.6', '%s:initializer2:string-dispatch' % U, 'initializer2 no longer calls string_initializer')
+
+
+# ------------------------------------------------------------------------------------------------
+# R05.1 (parser side): an aggregate initialised by an expression of its own type is copied as a whole
+# ------------------------------------------------------------------------------------------------
+def r051_copy(P, u, E, rep):
+    fn = 'initializer2'
+    _need(u, fn, 'union_initializer')
+    result = {}
+    for kind, word in (('TY_STRUCT', 'struct'), ('TY_UNION', 'union')):
+        def m_equal(it, ctx, n, a):
+            return 0          # the initializer starts neither with `{` nor with a designator
+
+        def m_assign(it, ctx, n, a, kind=kind):
+            node = Obj('Node', lazy=True, label='%s-valued-expr' % kind[3:].lower())
+            ty = Obj('Type', lazy=True, label='expr.ty')
+            ty.fields['kind'] = E[kind]
+            node.fields['ty'] = ty
+            _set_rest(it, ctx, a[0], 'tok-after-expr')
+            ctx.emit('assign', node, n.line)
+            return node
+
+        def h_sub(name):
+            def f(it, ctx, n, a):
+                _set_rest(it, ctx, a[0], 'tok-after-' + name)
+                ctx.emit('sub', name, a, n.line)
+                return None
+            return f
+        it = TInterp(P, u, {'models': {'equal': m_equal, 'assign': m_assign, 'struct_initializer2': h_sub('struct_initializer2')},
+                            'cut': {'initializer2': h_sub('initializer2')}, 'opaque': ['add_type', 'consume', 'skip'],
+                            'lazy_field': children_hook(), 'track_stores': True})
+
+        def mk(ctx, kind=kind):
+            init = Obj('Initializer', lazy=True, label='init')
+            ty = Obj('Type', lazy=True, label='init.ty')
+            ty.fields['kind'] = E[kind]
+            init.fields['ty'] = ty
+            init.fields['expr'] = 0
+            tok = Obj('Token', lazy=True, label='tok')
+            tok.fields['kind'] = E['TK_IDENT'] if 'TK_IDENT' in E else 0
+            ctx.root_init = init
+            ctx.slot = _Slot()
+            return [_Ref(ctx.slot), tok, init]
+        n = 0
+        for ctx, out in it.explore(fn, mk):
+            if out[0] != 'ret':
+                continue
+            n += 1
+            init = ctx.root_init
+            asg = [e for e in ctx.events if e[0] == 'assign']
+            ex = field(init, 'expr')
+            copied = bool(asg) and ex is asg[-1][1]
+            subs = [e for e in ctx.events if e[0] == 'sub']
+            how = 'copied' if copied else ('initialises-first-member' if subs else 'dropped')
+            result[word] = result.get(word, True) and copied
+            rep.ob('R05.1', '%s:%s:%s-valued-initializer/%s' % (U, fn, word, how), copied,
+                   'an object of %s type initialised by an expression of the same %s type (`%s T x = y;`) is not copied as a whole: the expression is %s '
+                   '(for a union: the ADDRESS bits of y end up in the first member), while the struct case assigns the whole object'
+                   % (word, word, word, 'handed to the first member as if it were that member\'s initializer' if subs else 'dropped'),
+                   where=_w(u, 'union_initializer' if kind == 'TY_UNION' else fn), facts={'path': ctx.trail})
+        if n == 0:
+            rep.undecided('R05.1', '%s:%s:%s-valued-initializer' % (U, fn, word), 'no returning path')
+    return result
